@@ -381,20 +381,74 @@ def gen_list(rng):
     return [[pmodel.gen_spec(rng, 0.12) for _ in range(m)] for m in sizes]
 
 
-def gen_ctor_filters(rng, kind):
-    out = {}
-    for _ in range(rng.choice([1, 1, 2])):
-        name, args = pmodel.gen_call(rng, [n for n in pmodel.ALL_FILTERS if n not in NOT_IMPLEMENTED[kind]])
-        if name in pmodel.NOARG:
-            out[name] = True
-        elif name == "spacetime_cut":
-            out[name] = [args[0], args[1]]
+EVENT_LEVEL = ["multiplicity_cut", "lower_event_energy_cut"]
+# particle-level filters that typically remove some but not all particles of an event (change multiplicity / energy)
+THINNING = ["charged_particles", "uncharged_particles", "remove_particle_species", "particle_species", "pT_cut", "mT_cut",
+            "rapidity_cut", "pseudorapidity_cut", "spacetime_cut", "keep_mesons", "keep_baryons", "keep_hadrons", "remove_photons",
+            "participants", "spectators", "particle_status", "keep_up", "keep_strange"]
+# ... and that rarely remove everything
+GENTLE = ["charged_particles", "uncharged_particles", "remove_particle_species", "remove_photons", "keep_hadrons", "pT_cut",
+          "pseudorapidity_cut", "keep_mesons"]
+WINDOWS = ["pT_cut", "mT_cut", "rapidity_cut", "pseudorapidity_cut", "spacetime_cut"]
+SPECIES_LIKE = ["particle_species", "remove_particle_species", "charged_particles", "uncharged_particles", "keep_mesons",
+                "keep_baryons", "particle_status"]
+
+
+def ctor_value(name, args):
+    """value of the `filters=` dictionary entry for a call (name, args)"""
+    if name in pmodel.NOARG:
+        return True
+    if name == "spacetime_cut":
+        return [args[0], args[1]]
+    return args[0]
+
+
+def gen_ctor_filters(rng, kind, events=None):
+    """`filters=` dictionary with 1-4 entries in random key order; half of the multi-entry dictionaries are built around a
+    pair that usually does NOT commute: an event-level cut next to a particle-level filter that changes the
+    multiplicity / energy of the events, or a window cut next to a species-like filter on the same particles.
+    `events` (the source's rows/specs) only biases the event-level thresholds towards the sizes that occur."""
+    allowed = [n for n in pmodel.ALL_FILTERS if n not in NOT_IMPLEMENTED[kind]]
+    n = rng.choice([1, 2, 2, 2, 2, 3, 3, 4])
+    names = []
+    if n >= 2 and rng.random() < 0.7:
+        if rng.random() < 0.7:
+            thin = [x for x in (GENTLE if rng.random() < 0.75 else THINNING) if x in allowed]
+            pair = [rng.choice([x for x in EVENT_LEVEL if x in allowed]), rng.choice(thin)]
         else:
-            out[name] = args[0]
+            pair = [rng.choice([x for x in WINDOWS if x in allowed]), rng.choice([x for x in SPECIES_LIKE if x in allowed])]
+        names = pair
+    gentle = [x for x in GENTLE if x in allowed]
+    while len(names) < n:
+        c = rng.choice(gentle) if rng.random() < 0.85 else rng.choice(allowed)
+        if c not in names:
+            names.append(c)
+    rng.shuffle(names)
+    sizes = sorted({len(ev) for ev in (events or [])} - {0}) or [1, 2, 3]
+    energies = []
+    for ev in (events or []):
+        if ev:
+            e = [float(r.get("E", 0.0)) if isinstance(r, dict) else float(r[5] if kind == "o" else r[3]) for r in ev]
+            if sum(e) > 0:
+                energies.append(sum(e))
+    out = {}
+    for name in names:
+        _, args = pmodel.gen_call(rng, [name])
+        if name == "multiplicity_cut" and rng.random() < 0.8:
+            m = rng.randint(1, max(1, rng.choice(sizes) - 1))          # a bound that a thinned event can cross
+            args = (rng.choice([(m, None), (m, None), (m, None), (None, m + 2), (m, m + 3)]),)
+        if name == "lower_event_energy_cut" and rng.random() < 0.8:
+            tot = rng.choice(energies) if energies else 4.0
+            args = (rng.choice([0.4, 0.6, 0.8]) * tot,)
+        if name == "pT_cut" and rng.random() < 0.6:
+            args = (rng.choice([(None, 1.5), (0.5, None), (None, 2.0), (0.25, 3.0), (1.0, None)]),)
+        if name == "pseudorapidity_cut" and rng.random() < 0.6:
+            args = (rng.choice([1.0, 2.0, (-1.0, 2.0), (0.0, 2.0)]),)
+        out[name] = ctor_value(name, args)
     return out
 
 
-def gen_kwargs(rng, nev, kind):
+def gen_kwargs(rng, nev, kind, events=None):
     kw = {}
     r = rng.random()
     if r < 0.45:
@@ -406,11 +460,11 @@ def gen_kwargs(rng, nev, kind):
         b = rng.randrange(a, nev) if nev else 0
         kw["events"] = (a, b)
     elif r < 0.93:
-        kw["filters"] = gen_ctor_filters(rng, kind)
+        kw["filters"] = gen_ctor_filters(rng, kind, events)
     else:
         a = rng.randrange(nev) if nev else 0
         kw["events"] = (a, rng.randrange(a, nev) if nev else 0) if rng.random() < 0.6 else a
-        kw["filters"] = gen_ctor_filters(rng, kind)
+        kw["filters"] = gen_ctor_filters(rng, kind, events)
     return kw
 
 
@@ -748,7 +802,7 @@ def gen_program(rng, maxlen=12, want_kind=None):
     for _ in range(nleaf):
         src = rng.choice(sorted(prog["sources"]))
         d = prog["sources"][src]
-        kw = gen_kwargs(rng, len(d["events"]), d["kind"])
+        kw = gen_kwargs(rng, len(d["events"]), d["kind"], d["events"])
         prog["steps"].append({"op": "leaf", "src": src, "kwargs": kwargs_to_json(kw)})
         reg_kinds.append(d["kind"])
     nops = rng.randint(1, max(1, maxlen - nleaf))
@@ -763,7 +817,7 @@ def gen_program(rng, maxlen=12, want_kind=None):
         elif r < 0.34:
             src = rng.choice(sorted(prog["sources"]))
             d = prog["sources"][src]
-            kw = gen_kwargs(rng, len(d["events"]), d["kind"])
+            kw = gen_kwargs(rng, len(d["events"]), d["kind"], d["events"])
             prog["steps"].append({"op": "leaf", "src": src, "kwargs": kwargs_to_json(kw)})
             reg_kinds.append(d["kind"])
         else:
@@ -899,6 +953,45 @@ def systematic_programs(rng, limit=None):
                     {"op": "add", "a": 0, "b": 1}]})
     if limit is not None and len(progs) > limit:
         progs = rng.sample(progs, limit)
+    return progs
+
+
+def rich_sizes(rng):
+    """1-4 events, mostly 2-6 particles (so that thinning filters leave something an event-level cut can judge)"""
+    return [rng.choice([0, 1, 2, 3, 3, 4, 4, 5, 6]) for _ in range(rng.randint(1, 4))]
+
+
+def ctor_filter_programs(rng, n):
+    """constructor `filters=` dictionaries (1-4 entries, random key order, biased to non-commuting pairs) for the three
+    storers, with and without `events=`; sometimes followed by a filter method and a sum, so that the history goes on"""
+    progs = []
+    for i in range(n):
+        kind = ("p", "o", "j")[i % 3]
+        if kind == "p":
+            src = {"kind": "p", "events": [[pmodel.gen_spec(rng, 0.05) for _ in range(m)] for m in rich_sizes(rng)]}
+            for ev in src["events"]:
+                for sp in ev:
+                    sp.setdefault("pdg", rng.choice(pmodel.VALID_PDGS))
+        else:
+            src = gen_file(rng, kind)
+            rows = [[(gen_oscar_row(rng, src.get("ext", False)) if kind == "o" else gen_jetscape_row(rng, src.get("parton", False)))
+                     for _ in range(m)] for m in rich_sizes(rng)]
+            src["events"] = renumber(src, rows)
+        nev = len(src["events"])
+        kw = {"filters": gen_ctor_filters(rng, kind, src["events"])}
+        r = rng.random()
+        if r < 0.25:
+            kw["events"] = rng.randrange(nev)
+        elif r < 0.5:
+            a = rng.randrange(nev)
+            kw["events"] = (a, rng.randrange(a, nev))
+        steps = [{"op": "leaf", "src": "s0", "kwargs": kwargs_to_json(kw)}]
+        if rng.random() < 0.3:
+            name, args = pmodel.gen_call(rng, [x for x in ["charged_particles", "multiplicity_cut", "pT_cut", "keep_mesons"]
+                                               if x not in NOT_IMPLEMENTED[kind]])
+            steps += [{"op": "leaf", "src": "s0", "kwargs": {}}, {"op": "add", "a": 0, "b": 1},
+                      {"op": "filter", "reg": 2, "name": name, "args": args_to_json(args)}]
+        progs.append({"sources": {"s0": src}, "steps": steps})
     return progs
 
 
@@ -1088,7 +1181,89 @@ def check_state(s, ref, cls, origin):
                    f"{short(got)} vs {short(exp)}")
 
 
-def oracle_program(prog, rng=None):
+def apply_ctor_filters_plain(filters, base_events, drop_emptied):
+    """the documented semantics of `filters=` on plain lists: every event on its own, the `sparkx.Filter` functions in the
+    order of the dictionary; the file readers drop an event that the filters emptied (ParticleObjectStorer keeps it)"""
+    import sparkx.Filter as F
+    out = []
+    for ev in base_events:
+        data = [list(ev)]
+        for name, val in filters.items():
+            if name in pmodel.NOARG:
+                if val:
+                    data = getattr(F, name)(data)
+            elif name == "spacetime_cut":
+                data = F.spacetime_cut(data, val[0], val[1])
+            else:
+                data = getattr(F, name)(data, val)
+        res = data[0]
+        if drop_emptied and len(res) == 0 and len(ev) != 0:
+            continue
+        out.append(res)
+    return out
+
+
+def pid_lists(evs):
+    return [[int(p.ID) for p in ev] for ev in evs]
+
+
+def order_sensitive(filters, base_events, drop_emptied):
+    """does some permutation of the dictionary give other contents (or raise) on these events?"""
+    import itertools
+    items = list(filters.items())
+    if len(items) < 2:
+        return False
+    try:
+        want = pid_lists(apply_ctor_filters_plain(filters, base_events, drop_emptied))
+    except Exception:
+        return False
+    for perm in itertools.islice(itertools.permutations(items), 1, 24):
+        try:
+            if pid_lists(apply_ctor_filters_plain(dict(perm), base_events, drop_emptied)) != want:
+                return True
+        except Exception:
+            return True
+    return False
+
+
+def check_ctor_filters(w, step, s, cls, kw, origin, stats):
+    """contents after construction with `filters=` == the same filter functions applied in dictionary order to the plain
+    events of the same selection"""
+    base_kw = {k: v for k, v in kw.items() if k != "filters"}
+    try:
+        base = w.load(step["src"], base_kw).particle_objects_list()
+    except Exception:
+        return
+    drop = cls != "p"
+    filters = kw["filters"]
+    if not isinstance(filters, dict):
+        return
+    if stats is not None and len(filters) >= 2:
+        stats["ctor-filters/multi-entry-dicts"] = stats.get("ctor-filters/multi-entry-dicts", 0) + 1
+        stats[f"ctor-filters/multi-entry-dicts/{CLSNAME[cls]}"] = stats.get(f"ctor-filters/multi-entry-dicts/{CLSNAME[cls]}", 0) + 1
+        if order_sensitive(filters, base, drop):
+            stats["ctor-filters/order-sensitive"] = stats.get("ctor-filters/order-sensitive", 0) + 1
+            k2 = f"ctor-filters/order-sensitive/{CLSNAME[cls]}" + ("+events" if "events" in kw else "")
+            stats[k2] = stats.get(k2, 0) + 1
+    try:
+        want = apply_ctor_filters_plain(filters, base, drop)
+    except Exception:
+        return          # the filter functions reject these arguments / particles: not an admissible dictionary
+    pol = s.particle_objects_list()
+    nev = s.num_events()
+    zero = nev is not None and int(nev) == 0 and (pol == [] or pol == [[]])
+    heldl = [] if zero else pol
+    if cls == "p":
+        same = len(heldl) == len(want) and all(len(a) == len(b) and all(p is q for p, q in zip(a, b)) for a, b in zip(heldl, want))
+    else:
+        same = pid_lists(heldl) == pid_lists(want)
+    if not same:
+        raise Fail(f"{CLSNAME[cls]}-ctor-filters-contents",
+                   f"[{origin}] filters={json.dumps(kwargs_to_json(kw)['filters'])}: held particle IDs {pid_lists(heldl)}, the same "
+                   f"filter functions applied in dictionary order to the plain events give {pid_lists(want)}")
+
+
+def oracle_program(prog, rng=None, stats=None):
     """runs the program on the real classes and on plain lists.  Returns the list of property failures
     [(key, what, failing_step)]: a failure at a constructor is recorded and the history continues from the object as
     it is; the first failure at a filter / addition ends the history."""
@@ -1122,6 +1297,11 @@ def oracle_program(prog, rng=None):
                     check_state(s, ref, cls, origin)
                 except Fail as f:
                     fails.append((f.key, f.what, i))
+                if "filters" in kw:
+                    try:
+                        check_ctor_filters(w, step, s, cls, kw, origin, stats)
+                    except Fail as f:
+                        fails.append((f.key, f.what, i))
                 nev0 = s.num_events() is not None and int(s.num_events()) == 0
                 ref["events"] = [] if nev0 else [list(ev) for ev in s.particle_objects_list()]
                 if nev0:
@@ -1239,13 +1419,15 @@ def search(ctx, budget_s):
     rng = ctx.rng
     t0 = time.time()
     n = 0
-    limit = 6000 if ctx.thorough else 400
+    limit = 9000 if ctx.thorough else 750
     seen = set()
-    todo = [prog for _, prog, _ in corpus_programs()] + systematic_programs(rng, None if ctx.thorough else 30)
+    todo = [prog for _, prog, _ in corpus_programs()] + systematic_programs(rng, None if ctx.thorough else 30) + \
+        ctor_filter_programs(rng, 2400 if ctx.thorough else 240)
+    stats = {}
     while (time.time() - t0 < budget_s and n < limit) or todo:
         prog = todo.pop() if todo else gen_program(rng)
         n += 1
-        fails = oracle_program(prog, rng)
+        fails = oracle_program(prog, rng, stats)
         ctx.case(("oracle", json.dumps(prog, sort_keys=True)), True)
         for key, what, at in fails:
             if key in seen:
@@ -1258,6 +1440,13 @@ def search(ctx, budget_s):
                                            how_to_replay="./check C04 --replay <this file>"))
     ctx.cov["oracle_cases"] = n
     ctx.count("oracle", n)
+    for k, v in stats.items():
+        ctx.count(k, v)
+    ctx.cov["ctor_filters_order"] = dict(multi_entry_dicts=stats.get("ctor-filters/multi-entry-dicts", 0),
+                                         order_sensitive=stats.get("ctor-filters/order-sensitive", 0),
+                                         note="constructor filters= dictionaries with >= 2 entries checked against the filter functions "
+                                              "applied in dictionary order; order_sensitive = some permutation of the dictionary gives "
+                                              "other contents on the loaded events")
 
 
 # ----------------------------------------------------------------------------- shrinking
@@ -1293,6 +1482,21 @@ def shrink(prog, fails, max_checks=120):
                 cur, changed = cand, True
                 break
     cur = prune_sources(cur)
+    # constructor dictionaries: drop entries
+    changed = True
+    while changed and checks[0] < max_checks:
+        changed = False
+        for si, st in enumerate(cur["steps"]):
+            f = st.get("kwargs", {}).get("filters") if st["op"] == "leaf" else None
+            if f and len(f) > 1:
+                for key in list(f):
+                    cand = copy.deepcopy(cur)
+                    del cand["steps"][si]["kwargs"]["filters"][key]
+                    if ok(cand):
+                        cur, changed = cand, True
+                        break
+            if changed:
+                break
     # sources: drop trailing events (selectors stay valid), then particles
     changed = True
     while changed and checks[0] < max_checks:
